@@ -117,9 +117,12 @@ type env struct {
 	// client numbers its operations from 1). Their session lost the primary role, so they need not be
 	// answered and the implementation may keep or drop them; if one resolves, its result arrives on the
 	// current primary's stream under an id that stream also uses (known finding KF-C06-1).
-	shadow  map[uint64]*opRec
-	curTrig int // position (session.opOrder) of the operation that triggered the response being processed, or -1
-	plan    map[uint64]*sharePlan
+	shadow map[uint64]*opRec
+	// lostRole: sessions that may have lost the primary role at some instant of a concurrent run (set by the
+	// concurrent families for their final checks only)
+	lostRole map[int]bool
+	curTrig  int // position (session.opOrder) of the operation that triggered the response being processed, or -1
+	plan     map[uint64]*sharePlan
 	// invalidScenario: the scenario asks the harness' own client for something no client may do (see modify)
 	invalidScenario bool
 	perNIFlush      bool
@@ -783,6 +786,63 @@ func (e *env) applyVerdict(rec *opRec, res *spb.AFTResult, foreign bool) {
 	}
 }
 
+// discarded: rec is held for a session that has gone or lost the primary role and the server does not hold it
+// (any more). Nothing obliges a server to keep such an operation (C06: "unless ... the stream ended, or its
+// session lost the primary role"); one that discards it is followed - the operation will never resolve.
+func (e *env) discarded(rec *opRec, implHolds map[uint64]bool) bool {
+	rs := e.sess[rec.sess]
+	if rec.state != opHeld || implHolds[rec.op.GetId()] || !(rs.dead || rs.closed || rs.elec != e.maxElec) {
+		return false
+	}
+	switch v, en, why := e.model.Expect(rec.op); {
+	case v == VHold:
+	case v == VEither && en != nil && !e.model.Resolvable(en):
+	case v == VFail && why == "replace of missing entry":
+	default:
+		return false
+	}
+	e.probe("held operation of a departed or superseded session discarded by the server")
+	rec.state, rec.unacked = opFailed, true
+	return true
+}
+
+// sessionGone: the session that sent rec has ended or lost the primary role.
+func (e *env) sessionGone(rec *opRec) bool {
+	rs := e.sess[rec.sess]
+	return rs.dead || rs.closed || rs.elec != e.maxElec || e.lostRole[rec.sess]
+}
+
+// followDiscards is called at a quiescent point BEFORE something is sent that might resolve what is held: what
+// the server has discarded by then (see discarded) is no longer expected to resolve.
+func (e *env) followDiscards() {
+	var held []*opRec
+	for _, rec := range e.allOps {
+		if rec.state == opHeld {
+			held = append(held, rec)
+		}
+	}
+	for _, sh := range e.shadow {
+		if sh.state == opHeld {
+			held = append(held, sh)
+		}
+	}
+	if len(held) == 0 {
+		return
+	}
+	implHolds := map[uint64]bool{}
+	for _, p := range e.srv.VerifRIB().VerifPending() {
+		for _, rec := range held {
+			if p.ID == rec.op.GetId() && proto.Equal(p.Op, rec.op) {
+				implHolds[p.ID] = true
+			}
+		}
+	}
+	sort.Slice(held, func(i, j int) bool { return held[i].seq < held[j].seq })
+	for _, rec := range held {
+		e.discarded(rec, implHolds)
+	}
+}
+
 // afterQuiescence runs the checks that need an exact quiescent point.
 func (e *env) afterQuiescence(s *session) {
 	e.checkpoint(func() { e.afterQuiescenceChecks(s) })
@@ -816,15 +876,16 @@ func (e *env) afterQuiescenceChecks(s *session) {
 		if e.sess[rec.sess].dead && rec.state == opSent {
 			continue // stream ended: the operation may legitimately stay unanswered
 		}
-		if rs := e.sess[rec.sess]; rec.state == opHeld && !implHolds[id] && (rs.dead || rs.closed || rs.elec != e.maxElec) {
-			// held for a session that has gone or lost the primary role: nothing obliges a server to keep it
-			// (C06: "unless ... the stream ended, or its session lost the primary role"); one that discards it
-			// is followed - it will never resolve
-			if v, _, _ := e.model.Expect(rec.op); v == VHold {
-				e.probe("held operation of a departed or superseded session discarded by the server")
-				rec.state, rec.unacked = opFailed, true
-				continue
-			}
+		if rec.state == opSent && !implHolds[id] && e.sessionGone(rec) {
+			// its session has lost the primary role: C06 owes it no answer, and a server that held it for a
+			// while may have discarded it at the hand-over (if it was installed nevertheless, the comparison
+			// of the installed entries says so)
+			e.probe("unanswered operation of a superseded session, not held any more")
+			rec.state, rec.unacked = opFailed, true
+			continue
+		}
+		if e.discarded(rec, implHolds) {
+			continue
 		}
 		v, _, why := e.model.Expect(rec.op)
 		switch v {
